@@ -742,6 +742,13 @@ def r9_index_validated(facts):
                 nonvoid = cf is not None and (cf.d.get('ret') or {}).get('s') not in (None, 'void')
                 checked = any(any(short(callee_name(y)) == short(cn) for f in guard_facts(fn, fb, fst) for y in walk(f[1] if f[0] == 'truth' else [f[2], f[3]] if f[0] == 'cmp' else []) if isinstance(y, dict) and 'callee' in y)
                               for fb, fj, fst in fails)
+                if not checked and nonvoid:
+                    # `bool ok = seq.f(n); if(!ok) return -1;`
+                    for b2, j2, st2 in fn.cfg.stmts():
+                        if st2['s'].get('k') == 'DeclStmt':
+                            for v in st2['s']['decls']:
+                                if v.get('init') is not None and any(y is x for y in walk(v['init'])):
+                                    checked = any(any(f[0] == 'truth' and strip(f[1]).get('id') == v['id'] for f in guard_facts(fn, fb, fst)) for fb, fj, fst in fails)
                 ok = nonvoid and checked
                 out.append(Obl('C18.R9', fn.name, '%s(%s)' % (short(cn), idx[0].get('n')), st['loc'], 'discharged' if ok else 'finding',
                                why='the method can refuse and the refusal becomes the error return' if ok else
